@@ -9,3 +9,14 @@ def cls(name):
         CLASSES[name] = f
         return f
     return deco
+
+
+@cls("nongp")
+def nongp(case, fail):
+    """F16: some operator node gets operands whose boundaries are not in general position: the given
+    shapes touch non-transversally (vertex on edge, shared vertex, collinear overlap), or the expression
+    uses a variable twice (intermediate results then share boundary pieces)"""
+    from . import opcases as OC
+    if "env" not in case or "expr" not in case:
+        return False
+    return (not OC.env_general_position(case["env"])) or (not OC.linear(case["expr"]))
